@@ -38,6 +38,17 @@ def _fmtnum(rng, x):
     if r < 0.5: return repr(x)
     if r < 0.7: return '%.17e' % x
     if r < 0.8 and x >= 0: return '+' + repr(x)
+    if r < 0.92:
+        # other spellings float() reads as the same number: no digit before the point (.25, -.5), none after it (5.), capital E
+        t = repr(x)
+        if 'e' not in t and 'n' not in t:
+            if t.startswith('0.'): t = t[1:]
+            elif t.startswith('-0.'): t = '-' + t[2:]
+            elif t.endswith('.0') and r < 0.88: t = t[:-1]
+        else: t = t.replace('e', 'E')
+        try:
+            if float(t) == x and t not in ('.', '-.'): return t
+        except ValueError: pass
     return repr(x)
 
 def gen_reader(rng, big=False):
